@@ -187,27 +187,62 @@ OCT [0-7]
 
 <STRING>"%s" {
   yylval->f->flush_str ();
-  yylval->f->t.push_child (parse_subquery (""));
+  try
+    {
+      yylval->f->t.push_child (parse_subquery (""));
+    }
+  catch (std::exception const &e)
+    {
+      return lexer_fail (yyscanner, e.what (), yylval->f);
+    }
 }
 
 <STRING>"%x" {
   yylval->f->flush_str ();
-  yylval->f->t.push_child (parse_subquery ("value hex"));
+  try
+    {
+      yylval->f->t.push_child (parse_subquery ("value hex"));
+    }
+  catch (std::exception const &e)
+    {
+      return lexer_fail (yyscanner, e.what (), yylval->f);
+    }
 }
 
 <STRING>"%o" {
   yylval->f->flush_str ();
-  yylval->f->t.push_child (parse_subquery ("value oct"));
+  try
+    {
+      yylval->f->t.push_child (parse_subquery ("value oct"));
+    }
+  catch (std::exception const &e)
+    {
+      return lexer_fail (yyscanner, e.what (), yylval->f);
+    }
 }
 
 <STRING>"%b" {
   yylval->f->flush_str ();
-  yylval->f->t.push_child (parse_subquery ("value bin"));
+  try
+    {
+      yylval->f->t.push_child (parse_subquery ("value bin"));
+    }
+  catch (std::exception const &e)
+    {
+      return lexer_fail (yyscanner, e.what (), yylval->f);
+    }
 }
 
 <STRING>"%d" {
   yylval->f->flush_str ();
-  yylval->f->t.push_child (parse_subquery ("value"));
+  try
+    {
+      yylval->f->t.push_child (parse_subquery ("value"));
+    }
+  catch (std::exception const &e)
+    {
+      return lexer_fail (yyscanner, e.what (), yylval->f);
+    }
 }
 
 <STRING>(.|[\n]) {
